@@ -563,6 +563,21 @@ func (e *Engine) VerifyFunc(fc *FuncContract) *FuncResult {
 		res.Err = err
 		return res
 	}
+	// vacuity guard: a call rule that matched no call site says nothing (typically the callee has
+	// no contract, so its calls are of unknown effect and carry no rules)
+	{
+		var dead []string
+		for key := range fc.CallPre {
+			if !x.cpHit[key] {
+				dead = append(dead, key)
+			}
+		}
+		sort.Strings(dead)
+		if len(dead) > 0 {
+			res.Err = fmt.Errorf("%s: call rule(s) match no call site: callpre %s (does the callee have a contract?)", fc.Key(), strings.Join(dead, ", "))
+			return res
+		}
+	}
 	if out.pc.B == -1 {
 		if !fc.MayPanic {
 			vc.obls = append(vc.obls, &Obligation{Name: "cover/return", Kind: "cover", Goal: TFalse, TraceLen: len(vc.trace), Pos: res.Pos, ExpectSat: true, Text: "some execution returns normally", Func: fc.Key(), Claimed: true})
